@@ -3,7 +3,7 @@ schemes (H1-H6), decided by structured matching and a symbolic evaluation of
 the stride formula."""
 import ast
 
-from ..model import (AnalysisError, FunctionInfo, expand_aug, dotted, norm_text,
+from ..model import (AnalysisError, FunctionInfo, expand_aug, fold_ifexp, conditional_def, dotted, norm_text,
                      names_read, const_value, is_none)
 from ..cfg import structural_guards
 from ..rules import wiring
@@ -110,13 +110,19 @@ def run(prog, res):
 
 def _defs(fn):
   d = {}
-  for st in ast.walk(fn.node):
-    st = expand_aug(st)
-    if isinstance(st, ast.Assign):
-      for t in st.targets:
-        nm = dotted(t)
-        if nm:
-          d.setdefault(nm, []).append(st)
+  def visit(n):
+    for st in ast.iter_child_nodes(n):
+      if isinstance(st, ast.stmt):
+        st2 = expand_aug(st)
+        if isinstance(st2, ast.Assign):
+          for t in st2.targets:
+            nm = dotted(t)
+            if nm:
+              d.setdefault(nm, []).append(st2)
+          if st2 is not st:
+            continue
+      visit(st)
+  visit(fn.node)
   return d
 
 
@@ -291,12 +297,11 @@ def _outer(prog, fn):
   p3 = _bad(loop[0].iter, 'iteration over the remaining dimensions',
             'enumerate(list_of_tensors[1:])')
   ok = False
-  for s in d.get('op', []):
-    v = s.value
-    if isinstance(v, ast.IfExp) and {prog.ext_name(fn.module, v.body),
-                                     prog.ext_name(fn.module, v.orelse)} == {
-                                         'tf.multiply', 'tf.matmul'}:
-      ok = True
+  cd = conditional_def(fn.node, 'op')
+  if cd is not None and {prog.ext_name(fn.module, cd[1]),
+                         prog.ext_name(fn.module, cd[2])} == {
+                             'tf.multiply', 'tf.matmul'}:
+    ok = True
   if not ok:
     p3.append("'auto' operation is not tf.multiply / tf.matmul")
   items.append(('order', 'dimensions are multiplied in input order', p3))
